@@ -1079,6 +1079,19 @@ impl<'a> Gen<'a> {
     }
 }
 
+/// Deep equality / ordering of freshly built temporaries inside loops: compared values become garbage at once, so under
+/// dense collection schedules their storage is reused by the next iteration's values.
+pub const COMPARE_SNIPPETS: &[&str] = &[
+    "std.length([i for i in std.range(0, 120) if [i, [i]] == [i, [i]]]) * 1000 + std.length([i for i in std.range(0, 120) if [i, [i]] == [i, [i + 1]]])",
+    "std.length([i for i in std.range(0, 150) if { a: [i], b: { c: i } } == { a: [i], b: { c: i } }]) * 1000 + std.length([i for i in std.range(0, 150) if { a: [i] } == { a: [i + 1] }])",
+    "std.foldl(function(acc, i) acc + (if std.equals([i, { k: i }], [i, { k: i }]) then 1 else 0) + (if std.equals({ k: [i] }, { k: [i, i] }) then 1000 else 0), std.range(0, 100), 0)",
+    "local mk(i) = { id: i, tags: [i % 3, \"t\" + i] }; std.length([i for i in std.range(0, 90) if mk(i) == mk(i)]) * 1000 + std.length([i for i in std.range(0, 90) if mk(i) == mk(i + 3)])",
+    "std.length(std.filter(function(i) [[i]] < [[i + 1]] && !([[i]] < [[i]]) && [i, \"x\"] != [i, \"y\"], std.range(0, 100)))",
+    "std.length(std.uniq(std.sort([{ k: i % 5, v: [i % 2] } for i in std.range(0, 60)], function(o) o.k), function(o) [o.k, o.v]))",
+    "std.length(std.set([[i % 4, [i % 2]] for i in std.range(0, 80)], function(x) x)) * 100 + std.length(std.setInter(std.set([[i] for i in std.range(0, 40)], function(x) x), std.set([[i * 2] for i in std.range(0, 40)], function(x) x), function(x) x))",
+    "local a = [{ x: [i] } for i in std.range(0, 50)]; std.length([i for i in std.range(0, 49) if a[i] == { x: [i] }]) * 100 + std.length([i for i in std.range(0, 49) if a[i] == a[i + 1]])",
+];
+
 /// Hand-written cyclic / closure-heavy snippets (the collector's cyclic-garbage case).
 pub const CYCLIC_SNIPPETS: &[&str] = &[
     "local o = { me:: o, n: 1 }; o",
